@@ -130,7 +130,9 @@ let () =
       let av = WsMessage.avail_at [big] in
       let o = WsMessage.poll_loop (Stdlib.List.init (total / 2 + 3) (fun _ -> av)) cs in
       let res = Stdlib.List.filter_map (function None -> None | Some r -> Some (c11_show_res r)) o.WsMessage.p_results in
-      Printf.sprintf "res=%s out=%s" (Stdlib.String.concat ";" res) (c11_hex_writes o.WsMessage.p_writes)
+      (* a poller that gave up while the stream was open drops it: Close *)
+      let tailw = if o.WsMessage.p_open then WsMessage.drop_stream false else [] in
+      Printf.sprintf "res=%s out=%s" (Stdlib.String.concat ";" res) (c11_hex_writes (o.WsMessage.p_writes @ tailw))
     | _ -> "BADARGS");
   register "c11_hs" (function
     | request :: rest ->
